@@ -116,3 +116,19 @@ From Coq Require Import String.
 Example ex_service_spawns : existsb (fun s => runs_build s && String.eqb (sp_pkg s) "cmd/esbuild"%string) service_spawn_sites = true
   /\ existsb (fun s => runs_build s && String.eqb (sp_pkg s) "pkg/api"%string) service_spawn_sites = true.
 Proof. vm_compute. split; reflexivity. Qed.
+
+From V Require Import C16.CssLex.
+(* the escape of a code point above U+10FFFF at the end of the input: RuneError, cursor at eof *)
+Example ex_css_escape : run_escape [92;49;49;48;48;48;48] = Ok (RuneError, mkLx 7 eof 7).
+Proof. vm_compute. reflexivity. Qed.
+(* an unterminated string whose last byte is a backslash *)
+Example ex_css_string : run_string [34;97;92] = Ok (2, mkLx 3 eof 3).
+Proof. vm_compute. reflexivity. Qed.
+Example ex_css_string_ok : run_string [39;97;92;39;98;39;99] = Ok (1, mkLx 7 99 6).
+Proof. vm_compute. reflexivity. Qed.
+(* a url body with a quote becomes a bad url consumed up to the parenthesis *)
+Example ex_css_url : run_url [97;34;98;41;99] = Ok (4, mkLx 5 99 4).
+Proof. vm_compute. reflexivity. Qed.
+(* the name a, escape 41 (A), b : "aAb" *)
+Example ex_css_name : exists l, run_name [97;92;52;49;32;98;59] = Ok ([97;65;98], l).
+Proof. eexists. vm_compute. reflexivity. Qed.
